@@ -121,7 +121,18 @@ def spec (_ : Unit) (op : String) (obs : String) : String :=
     match hexArg? ws "ns", parseObs os with
     | some ns, some o => verdict "C14/serde" (Lumina.Spec.C14.specSerde ns o)
     | _, _ => "specfail C14/unparsed"
-  | "de" :: _ => "specskip"
+  | "de" :: _ =>
+    -- a deserialised namespace must be a valid one whose canonical base64 form is the input string;
+    -- a rejected string must not be the base64 form of any valid namespace
+    match arg? ws "s", parseObs os with
+    | some s0, some o =>
+      let cs := if s0 == "-" then [] else s0.toList
+      match o with
+      | Obs.ok x => verdict "C14/de" (Lumina.Spec.C14.validRaw x && b64Encode x == cs)
+      | Obs.err => verdict "C14/de" (match b64Decode cs with
+          | some bs => !(Lumina.Spec.C14.validRaw bs)
+          | none => true)
+    | _, _ => "specfail C14/unparsed"
   | _ => "specfail C14/unparsed"
 
 def handler : Driver.Handler Unit := { init := (), step := step, spec := spec }
